@@ -533,7 +533,9 @@ func (f *DefaultFanController) setPwm(target int) (err error) {
 	// if we can read the PWM value, we can check if the fan is already at the target value
 	// and avoid unnecessary setPwm calls
 	if f.fan.Supports(fans.FeaturePwmSensor) {
-		current, err := f.getPwm()
+		// read the fan itself: getPwm() falls back to lastSetPwm (the value requested just above)
+		// when its own feature probe fails, which would make any target look "already set"
+		current, err := f.fan.GetPwm()
 		if err == nil && closestExpected == current {
 			// nothing to do
 			return nil
